@@ -92,6 +92,8 @@ type Env struct {
 	OnMiddleware func()
 	OnCall       func()
 	RecordMW     bool
+	NotFoundOf   map[string]*Hnd // router name -> its not-found handler
+	Group404     *Hnd
 }
 
 func NewEnv() *Env { return &Env{RecordMW: true} }
@@ -421,11 +423,19 @@ func DoTrace(h http.Handler, q Req) (*Obs, []string) {
 
 // NewRouter builds a router of the harness' handler type.
 func (e *Env) NewRouter(name string, o ...mux.Option) *mux.Router[*Hnd] {
-	return mux.NewRouter[*Hnd](name, e.Call, e.NewHnd(K404, ""), e.M405Builder, e.OptionsBuilder, o...)
+	nf := e.NewHnd(K404, "")
+	e.mu.Lock()
+	if e.NotFoundOf == nil {
+		e.NotFoundOf = map[string]*Hnd{}
+	}
+	e.NotFoundOf[name] = nf
+	e.mu.Unlock()
+	return mux.NewRouter[*Hnd](name, e.Call, nf, e.M405Builder, e.OptionsBuilder, o...)
 }
 
 func (e *Env) NewGroup(o ...mux.Option) *mux.Group[*Hnd] {
-	return mux.NewGroup[*Hnd](e.Call, e.NewHnd(KGroup404, ""), e.M405Builder, e.OptionsBuilder, o...)
+	e.Group404 = e.NewHnd(KGroup404, "")
+	return mux.NewGroup[*Hnd](e.Call, e.Group404, e.M405Builder, e.OptionsBuilder, o...)
 }
 
 // AllowSet splits an Allow-style header into a sorted, de-duplicated set.
